@@ -4,6 +4,7 @@ package main
 // compare with the committed ledger and known findings, write evidence.
 
 import (
+	"go/ast"
 	"encoding/json"
 	"flag"
 	"fmt"
@@ -546,6 +547,25 @@ func cmdCheck(args []string) {
 	for _, a := range assumed {
 		assumptions = append(assumptions, "callee contract assumed at call sites (its obligations are discharged by the check of the property that tags them): "+a)
 	}
+	// preconditions of Converter methods: the transpiler calls them through the interface, where
+	// no obligation is generated -- they are assumptions about the call protocol, not proved facts
+	var pre []string
+	for _, f := range w.functionsFor(*prop) {
+		fc := w.contracts[funcKey(f)]
+		if fc == nil || len(fc.Requires) == 0 || f.Signature.Recv() == nil || !ast.IsExported(f.Name()) {
+			continue
+		}
+		if !strings.Contains(funcKey(f), "(*converter)") {
+			continue
+		}
+		for _, c := range fc.Requires {
+			pre = append(pre, funcKey(f)+": "+c.Label+": "+c.Text)
+		}
+	}
+	sort.Strings(pre)
+	for _, a := range pre {
+		assumptions = append(assumptions, "precondition of a Converter method assumed in its own proof and NOT checked where the transpiler calls it through the interface (call-protocol assumption): "+a)
+	}
 	assumptions = append(assumptions, propertyAssumptions(*prop)...)
 	ev := map[string]interface{}{
 		"property_id": *prop,
@@ -600,6 +620,8 @@ func libDocFor(l string) string {
 	switch {
 	case strings.HasPrefix(l, "os.") || strings.HasPrefix(l, "path/filepath."):
 		return libDoc["os/filepath"]
+	case strings.HasPrefix(l, "regexp-semantics: "):
+		return "exact model used instead of the uninterpreted one"
 	case strings.Contains(l, "regexp"):
 		return libDoc["regexp"]
 	case strings.Contains(l, "sha256"):
